@@ -1031,3 +1031,71 @@ def resolve_here(expr, depth=0, _skip=frozenset()):
     out = res(expr, anchor, set(_skip), depth)
     ast.fix_missing_locations(out)
     return out
+
+
+# ---------------------------------------------------------------------- file idioms (opt-in; used by the ordering rules of the dumpers)
+
+def file_idioms(ctx, nf):
+    """Two spellings of writing a file, brought to the one the ordering rules name (applied to a normalised copy, in place):
+
+    * `with <call> as f: BODY`  ->  `f = <call>; BODY; f.close()`  - leaving the block normally closes f after BODY, which is all
+      the ordering rules ask about (they never require a close on a failure path);
+    * `s = json.dumps(D, **kw)` ... `f.write(s)`  ->  `json.dump(D, f, **kw)` at the place of the write (json.dump is specified as
+      exactly that: serialise, then write the text to the file object).
+    """
+    node = nf.node
+    changed = [False]
+
+    class W(ast.NodeTransformer):
+        def visit_FunctionDef(self, n):
+            if n is not node:
+                return n
+            self.generic_visit(n)
+            return n
+
+        def visit_Lambda(self, n):
+            return n
+
+        def visit_With(self, n):
+            self.generic_visit(n)
+            if len(n.items) == 1 and isinstance(n.items[0].context_expr, ast.Call) and isinstance(n.items[0].optional_vars, ast.Name):
+                f = n.items[0].optional_vars.id
+                a = ast.copy_location(ast.Assign(targets=[ast.Name(id=f, ctx=ast.Store())], value=n.items[0].context_expr), n)
+                last = n.body[-1]
+                c = ast.copy_location(ast.Expr(value=ast.Call(func=ast.Attribute(value=ast.Name(id=f, ctx=ast.Load()), attr='close',
+                                                                                ctx=ast.Load()), args=[], keywords=[])), last)
+                c.lineno = getattr(last, 'end_lineno', last.lineno)
+                changed[0] = True
+                return [a] + n.body + [c]
+            return n
+    W().visit(node)
+    ast.fix_missing_locations(node)
+    # json.dumps + write
+    binds = {}
+    for a in own_nodes(node):
+        if isinstance(a, ast.Assign) and len(a.targets) == 1 and isinstance(a.targets[0], ast.Name):
+            binds.setdefault(a.targets[0].id, []).append(a.value)
+
+    def dumps_of(e):
+        if isinstance(e, ast.Name) and len(binds.get(e.id, [])) == 1:
+            e = binds[e.id][0]
+        if isinstance(e, ast.Call) and isinstance(e.func, ast.Attribute) and e.func.attr == 'dumps' and \
+                isinstance(e.func.value, ast.Name) and e.func.value.id == 'json' and e.args:
+            return e
+        return None
+    for c in list(own_nodes(node)):
+        if isinstance(c, ast.Call) and isinstance(c.func, ast.Attribute) and c.func.attr == 'write' and len(c.args) == 1 \
+                and not c.keywords and isinstance(c.func.value, ast.Name):
+            d = dumps_of(c.args[0])
+            if d is not None:
+                fobj = c.func.value
+                c.func = ast.copy_location(ast.Attribute(value=ast.Name(id='json', ctx=ast.Load()), attr='dump', ctx=ast.Load()), c)
+                c.args = [clone(d.args[0]), fobj] + [clone(x) for x in d.args[1:]]
+                c.keywords = [clone(k) for k in d.keywords]
+                changed[0] = True
+    if changed[0]:
+        par = getattr(node, '_parent', None)
+        ast.fix_missing_locations(node)
+        set_parents(node)
+        node._parent = par
+    return nf
